@@ -87,37 +87,51 @@ theorem get_of_lookup_none (o : Obj) (k : String) (h : o.lookup k = none) : get 
 
 /-! ### validateParamChangesAreAllowed -/
 
+theorem hasKey_iff_mem_keys (o : Obj) (k : String) : hasKey o k = true ↔ k ∈ keys o := by
+  unfold hasKey keys
+  simp only [List.any_eq_true, beq_iff_eq, List.mem_map]
+
 theorem validate_spec (cur inc : Obj) (allow : List String) (h : validate cur inc allow = true) :
-    cur.length = inc.length ∧ ∀ k, k ∈ keys cur → k ∉ allow → get cur k = get inc k := by
+    cur.length = inc.length ∧ (∀ k, k ∈ keys inc → k ∈ keys cur) ∧
+    ∀ k, k ∈ keys cur → k ∉ allow → get cur k = get inc k := by
   unfold validate at h
   split at h
   · cases h
   · rename_i hl
     simp only [bne_iff_ne, ne_eq, Decidable.not_not] at hl
-    refine ⟨hl, ?_⟩
-    intro k hk hna
-    rw [List.all_eq_true] at h
-    have := h k hk
-    simp only [Bool.or_eq_true, List.contains_eq_mem, decide_eq_true_eq] at this
-    rcases this with h1 | h2
-    · exact absurd h1 hna
-    · exact Json.eq_of_beq _ _ h2
+    split at h
+    · cases h
+    · rename_i hsub
+      have hsub : (keys inc).all (hasKey cur) = true := by
+        cases hx : (keys inc).all (hasKey cur) with
+        | true => rfl
+        | false => rw [hx] at hsub; simp at hsub
+      rw [List.all_eq_true] at hsub
+      refine ⟨hl, fun k hk => (hasKey_iff_mem_keys cur k).mp (hsub k hk), ?_⟩
+      intro k hk hna
+      rw [List.all_eq_true] at h
+      have := h k hk
+      simp only [Bool.or_eq_true, List.contains_eq_mem, decide_eq_true_eq] at this
+      rcases this with h1 | h2
+      · exact absurd h1 hna
+      · exact Json.eq_of_beq _ _ h2
 
-/-- the single-record fact: a protected field is read back unchanged by the applier unless it is
-    omitted from the current document and present in the incoming one -/
+/-- the single-record fact: after an accepted change every field that is not on the allow-list is read
+    back by the applier exactly as the store held it -/
 theorem single_protected (sch : Schema) (base : String → Json) (cur inc : Obj) (allow : List String)
     (hb : ∀ k, base k = recOf cur k ∨ base k = .null)
-    (h : validate cur inc allow = true) (k : String) (hk : k ∉ allow)
-    (hp : k ∈ keys cur ∨ inc.lookup k = none) :
+    (h : validate cur inc allow = true) (k : String) (hk : k ∉ allow) :
     applyRec sch base inc k = recOf cur k := by
-  obtain ⟨_, hv⟩ := validate_spec cur inc allow h
+  obtain ⟨_, hsub, hv⟩ := validate_spec cur inc allow h
   unfold applyRec recOf
   cases hl : inc.lookup k with
   | some v =>
     simp only
-    rcases hp with hp | hp
-    · rw [hv k hp hk, get_of_lookup_some inc k v hl]
-    · rw [hl] at hp; cases hp
+    have hin : k ∈ keys inc := by
+      by_cases hm : k ∈ keys inc
+      · exact hm
+      · rw [lookup_none_of_not_mem_keys inc k hm] at hl; cases hl
+    rw [hv k (hsub k hin) hk, get_of_lookup_some inc k v hl]
   | none =>
     simp only
     have hcur : get cur k = .null := by
@@ -132,88 +146,84 @@ theorem single_protected (sch : Schema) (base : String → Json) (cur inc : Obj)
 
 /-! ### allowsMultiParamsChange -/
 
-theorem multiOne_spec (reqs : List Req) (inc : List Obj) (c : Obj) (h : multiOne reqs inc c = true) :
-    ∃ r, reqs.find? (matchesReq c) = some r ∧ ∃ i, inc.find? (fun v => matchesReq v r) = some i ∧
-      validate c i r.allowed = true := by
-  unfold multiOne at h
-  split at h
-  · cases h
-  · rename_i r hr
+theorem findFree_spec (r : Req) (inc : List Obj) (used : List Nat) (i : Nat)
+    (h : findFree r inc used = some i) :
+    i < inc.length ∧ i ∉ used ∧ ∃ v, inc[i]? = some v ∧ matchesReq v r = true := by
+  unfold findFree at h
+  have hm := List.mem_of_find?_eq_some h
+  have hp := List.find?_some h
+  simp only [List.mem_range] at hm
+  simp only [Bool.and_eq_true, Bool.not_eq_true', List.contains_eq_mem, decide_eq_false_iff_not] at hp
+  refine ⟨hm, hp.1, ?_⟩
+  cases hv : inc[i]? with
+  | none => rw [hv] at hp; simp at hp
+  | some v => rw [hv] at hp; exact ⟨v, rfl, hp.2⟩
+
+/-- what the loop established for the pair (current record, assigned incoming index) -/
+def Pair (reqs : List Req) (inc : List Obj) (c : Obj) (i : Nat) : Prop :=
+  ∃ r v, reqs.find? (matchesReq c) = some r ∧ inc[i]? = some v ∧ matchesReq v r = true ∧
+    validate c v r.allowed = true
+
+theorem assign_spec (reqs : List Req) (inc : List Obj) (cur : List Obj) :
+    ∀ (used idxs : List Nat), assign reqs inc used cur = some idxs →
+      idxs.length = cur.length ∧ (∀ i, i ∈ idxs → i < inc.length ∧ i ∉ used) ∧ idxs.Nodup ∧
+      ∀ p, p ∈ cur.zip idxs → Pair reqs inc p.1 p.2 := by
+  induction cur with
+  | nil =>
+    intro used idxs h
+    simp only [assign, Option.some.injEq] at h
+    subst h
+    exact ⟨rfl, by simp, List.nodup_nil, by simp⟩
+  | cons c cs ih =>
+    intro used idxs h
+    unfold assign at h
     split at h
     · cases h
-    · rename_i i hi
-      exact ⟨r, hr, i, hi, h⟩
+    · rename_i r hr
+      split at h
+      · cases h
+      · rename_i i hi
+        split at h
+        · cases h
+        · rename_i v hv
+          split at h
+          · rename_i hval
+            cases hrest : assign reqs inc (i :: used) cs with
+            | none => rw [hrest] at h; cases h
+            | some rest =>
+              rw [hrest] at h
+              simp only [Option.map_some, Option.some.injEq] at h
+              subst h
+              obtain ⟨hlen, hbound, hnd, hpairs⟩ := ih (i :: used) rest hrest
+              obtain ⟨hilt, hiu, v', hv', hmv⟩ := findFree_spec r inc used i hi
+              rw [hv] at hv'; cases hv'
+              refine ⟨by simp [hlen], ?_, ?_, ?_⟩
+              · intro j hj
+                rcases List.mem_cons.mp hj with e | hj
+                · subst e; exact ⟨hilt, hiu⟩
+                · obtain ⟨h1, h2⟩ := hbound j hj
+                  exact ⟨h1, fun hu => h2 (List.mem_cons_of_mem _ hu)⟩
+              · rw [List.nodup_cons]
+                refine ⟨?_, hnd⟩
+                intro hm
+                exact (hbound i hm).2 List.mem_cons_self
+              · intro p hp
+                simp only [List.zip_cons_cons, List.mem_cons] at hp
+                rcases hp with e | hp
+                · subst e; exact ⟨r, v, hr, hv, hmv, hval⟩
+                · exact hpairs p hp
+          · cases h
 
 theorem allowsMulti_spec (reqs : List Req) (cur inc : List Obj) (h : allowsMulti reqs cur inc = true) :
-    cur.length = inc.length ∧ ∀ c, c ∈ cur → multiOne reqs inc c = true := by
+    cur.length = inc.length ∧ ∃ idxs, assign reqs inc [] cur = some idxs := by
   unfold allowsMulti at h
   split at h
   · cases h
   · rename_i hl
     simp only [bne_iff_ne, ne_eq, Decidable.not_not] at hl
-    rw [List.all_eq_true] at h
-    exact ⟨hl, h⟩
-
-theorem find?_findIdx? {α : Type} (p : α → Bool) (l : List α) (a : α) (h : l.find? p = some a) :
-    ∃ j, l.findIdx? p = some j ∧ l[j]? = some a := by
-  induction l with
-  | nil => cases h
-  | cons x xs ih =>
-    rw [List.findIdx?_cons]
-    by_cases hx : p x = true
-    · simp only [List.find?, hx] at h
-      simp only [hx, ite_true]
-      exact ⟨0, rfl, by simpa using h⟩
-    · have hx' : p x = false := by simpa using hx
-      simp only [List.find?, hx'] at h
-      obtain ⟨j, hj, hg⟩ := ih h
-      simp only [hx', Bool.false_eq_true, ite_false, hj, Option.map_some]
-      exact ⟨j + 1, rfl, by simpa using hg⟩
-
-theorem findIdx?_find? {α : Type} (p : α → Bool) (l : List α) (j : Nat) (h : l.findIdx? p = some j) :
-    l.find? p = l[j]? ∧ j < l.length := by
-  induction l generalizing j with
-  | nil => simp at h
-  | cons x xs ih =>
-    rw [List.findIdx?_cons] at h
-    by_cases hx : p x = true
-    · simp only [hx, ite_true, Option.some.injEq] at h
-      subst h
-      simp [List.find?, hx]
-    · have hx' : p x = false := by simpa using hx
-      simp only [hx', Bool.false_eq_true, ite_false, Option.map_eq_some_iff] at h
-      obtain ⟨j', hj', rfl⟩ := h
-      obtain ⟨h1, h2⟩ := ih j' hj'
-      simp only [List.find?, hx', List.length_cons]
-      exact ⟨by simpa using h1, by omega⟩
-
-/-- an accepted multi-record change matches every current record to an incoming index -/
-theorem multiOne_matchIdx (reqs : List Req) (inc : List Obj) (c : Obj) (h : multiOne reqs inc c = true) :
-    ∃ r j i, reqs.find? (matchesReq c) = some r ∧ matchIdx reqs inc c = some j ∧ inc[j]? = some i ∧
-      matchesReq c r = true ∧ matchesReq i r = true ∧ validate c i r.allowed = true := by
-  obtain ⟨r, hr, i, hi, hv⟩ := multiOne_spec reqs inc c h
-  obtain ⟨j, hj, hg⟩ := find?_findIdx? _ inc i hi
-  refine ⟨r, j, i, hr, ?_, hg, ?_, ?_, hv⟩
-  · unfold matchIdx; rw [hr]; exact hj
-  · exact List.find?_some hr
-  · exact List.find?_some (p := fun v => matchesReq v r) hi
-
-/-- two current records that differ on a field protected for both cannot be matched to the same
-    incoming record -/
-theorem matchIdx_injective (reqs : List Req) (inc : List Obj) (c1 c2 : Obj)
-    (h1 : multiOne reqs inc c1 = true) (h2 : multiOne reqs inc c2 = true)
-    (j : Nat) (m1 : matchIdx reqs inc c1 = some j) (m2 : matchIdx reqs inc c2 = some j)
-    (hd : ∀ r1 r2, reqs.find? (matchesReq c1) = some r1 → reqs.find? (matchesReq c2) = some r2 →
-      ∃ k, k ∈ keys c1 ∧ k ∈ keys c2 ∧ k ∉ r1.allowed ∧ k ∉ r2.allowed ∧ get c1 k ≠ get c2 k) : False := by
-  obtain ⟨r1, j1, i1, hr1, hm1, hg1, _, _, hv1⟩ := multiOne_matchIdx reqs inc c1 h1
-  obtain ⟨r2, j2, i2, hr2, hm2, hg2, _, _, hv2⟩ := multiOne_matchIdx reqs inc c2 h2
-  rw [m1] at hm1; rw [m2] at hm2
-  cases hm1; cases hm2
-  rw [hg1] at hg2; cases hg2
-  obtain ⟨k, hk1, hk2, ha1, ha2, hne⟩ := hd r1 r2 hr1 hr2
-  have e1 := (validate_spec c1 i1 r1.allowed hv1).2 k hk1 ha1
-  have e2 := (validate_spec c2 i1 r2.allowed hv2).2 k hk2 ha2
-  exact hne (e1.trans e2.symm)
+    cases ha : assign reqs inc [] cur with
+    | none => rw [ha] at h; cases h
+    | some idxs => exact ⟨hl, idxs, rfl⟩
 
 /-! ### pigeonhole on index lists (core Lean has no ready-made form) -/
 
